@@ -87,14 +87,16 @@ func VerifStart(ids []int, workers map[int]func()) *VSched {
 	VS = s
 	s.ids = append(s.ids, ids...)
 	for _, w := range s.ids {
-		w, f := w, workers[w]
 		s.resume[w] = make(chan struct{})
+		s.state[w] = "free"
+	}
+	for _, w := range s.ids {
+		w, f, ch := w, workers[w], s.resume[w]
 		go func() {
-			<-s.resume[w]
+			<-ch // the maps are complete and never written again before any worker runs
 			f()
 			s.parked <- vpark{w: w, done: true}
 		}()
-		s.state[w] = "free"
 	}
 	return s
 }
